@@ -24,6 +24,14 @@ RULE = ('cases: as C05 with every subset of invocations failing (exceptions tagg
 ESSENTIAL = ['cross-loop-wait', 'left-pending', 'inv-failed', 'caller-cancelled']
 
 
+ENUM_EXHAUSTIVE = {'quick': 'every single-preemption schedule (decision index x target thread) of the canonical small programs in cache_common.canonical_programs',
+                   'thorough': 'every single-preemption schedule of the canonical small programs'}
+
+
+def enumerate_cases(tier, shard=0, nshards=1):
+    return G.single_preemption_cases('c06', shard, nshards)
+
+
 def strategy(tier):
     return G.case_strategy('c06')
 
